@@ -415,7 +415,7 @@ def check(text, want):
 if bad:
     print('REPRODUCED: these texts do not parse to the product of their terms:', bad); sys.exit(1)
 sys.exit(0)
-""")
+""", soft=True)     # the replay is a fixed list of product texts: a difference it does not show stays a candidate
     rep.functions.update(["measured.parsing.QuantityTransformer.unit_sequence", "measured.parsing.QuantityTransformer.unit"])
 
 
